@@ -193,6 +193,10 @@ func (c *shCase) took(h *shHandle, r shResult) {
 // settle: report the calls that completed; waits while completions keep coming
 func (c *shCase) settle(d time.Duration) {
 	deadline := time.Now().Add(d)
+	// an expected hand-over gets real patience: on a busy machine the goroutine that has the item may simply not
+	// have run yet; only an item that is STILL with nobody after this long counts as not handed over
+	const patience = 2 * time.Second
+	patient := time.Now().Add(patience)
 	for {
 		progress := false
 		for _, h := range c.handles {
@@ -210,16 +214,18 @@ func (c *shCase) settle(d time.Duration) {
 		}
 		// an item is queued and a handle is blocked: the hand-over must happen
 		expecting := len(c.queued) > 0 && c.anyBlocked()
-		if !progress && (!expecting || time.Now().After(deadline)) {
+		if !progress && (!expecting || time.Now().After(patient)) {
 			break
 		}
 		if progress {
 			deadline = time.Now().Add(d)
+			patient = time.Now().Add(patience)
 		}
+		_ = deadline
 		time.Sleep(200 * time.Microsecond)
 	}
 	if len(c.queued) > 0 && c.anyBlocked() {
-		c.out.Oracle("C12", "items %v reached the socket and handle(s) are blocked in accept/read, but nothing was handed over within %v", c.queued, d)
+		c.out.Oracle("C12", "items %v reached the socket and handle(s) are blocked in accept/read, but nothing was handed over within %v", c.queued, patience)
 	}
 	// a connection that reached the socket and was handed to nobody must stay open for the handles
 	// that are still open (only the last close may end it)
